@@ -513,12 +513,111 @@ def ttj_state_local(body, tj):
     return l
 
 
+def _trans_semantic(ctx, v, tb, fv, is_leftmost):
+    """Decision table of a transition function, evaluated on its MIR under assumptions on the three atomic conditions
+         C: child(state, label) is Some      R: state == ROOT      D: fail(state) == DEAD   (leftmost only)
+       C            -> returns the child          (no further fail read)
+       !C, R        -> returns ROOT
+       !C, !R, D    -> returns ROOT               (leftmost only)
+       !C, !R[, !D] -> never returns: reads fail(state) and tries again
+    (cw: an unmapped character returns ROOT before any of this — CW-MAP.)  Independent of the loop's source form
+    (`loop` with early returns, `while child.is_none() && state != ROOT`, `unwrap_or(ROOT)`, ...).  True iff every row holds."""
+    from . import cond
+    root = fv.root
+    b = tb
+    childcalls = [(vw, bi) for vw, bi, c, tj in fv.calls(lambda c: c.body_path in v.child) if vw is root]
+    if not childcalls:
+        return False
+    csites = {(b.path, bi) for _, bi in childcalls}
+
+    def is_child(t):
+        return t[0] == "call" and t[3] in csites
+
+    def state_like(x):
+        ms = members(x)
+        return all(y[0] in ("param", "loop") or (y[0] == "call" and y[1] == v.S + "::fail") for y in ms) and \
+            any(y[0] == "param" and y[1] == 2 for y in ms)
+
+    def at_root(t):
+        return t[0] == "bin" and t[1] == "Eq" and ((is_const(t[2], 0) and state_like(t[3])) or (is_const(t[3], 0) and state_like(t[2])))
+
+    def fail_dead(t):
+        return t[0] == "bin" and t[1] == "Eq" and any(is_const(c_, 1) and any(y[0] == "call" and y[1] == v.S + "::fail" for y in members(o_))
+                                                      for c_, o_ in ((t[2], t[3]), (t[3], t[2])))
+    rets = set(b.return_blocks())
+    fail_reads = {bi for vw, bi, c, tj in fv.calls(lambda c: c.adt == v.S and c.name == "fail") if vw is root}
+    ret_op = {"k": "move", "place": {"local": 0, "proj": []}}
+    # cw: start after the mapper test (its None arm is CW-MAP's business)
+    starts = [0]
+    if v.tag == "cw":
+        sws = switches_on(root, lambda d: d[0] == "discr" and d[1][0] == "call" and str(d[1][1]).endswith("CodeMapper::get"))
+        if len(sws) != 1:
+            return False
+        starts = [opt_arms(sws[0][1])[0]]
+
+    def row(C, R, D):
+        atoms = [(at_root, R)] if R is not None else []
+        if D is not None:
+            atoms.append((fail_dead, D))
+        some = [(is_child, C)]
+        vis = cond.explore(root, starts, atoms, some_atoms=some)
+        if vis is None:
+            return None, None
+        ex = cond.Explorer(root, atoms, some)
+        vals = set()
+        if vis & rets:
+            for t in cond.values_under(root, starts, atoms, ret_op, some_atoms=some):
+                vals.add(pnorm(ex.value_of(t)))
+        return vis, vals
+
+    def all_child(vals):
+        return bool(vals) and all(all(y[0] == "payload" and is_child(y[1]) for y in members(x)) for x in vals)
+
+    def all_root(vals):
+        return bool(vals) and all(all(is_const(y, 0) for y in members(x)) for x in vals)
+    # C: returns the child, whatever R/D are, without another fail read
+    vis, vals = row(True, None, None)
+    if vis is None or not (vis & rets) or not all_child(vals) or (vis & fail_reads):
+        return False
+    # !C, R: returns ROOT
+    vis, vals = row(False, True, None if not is_leftmost else None)
+    if vis is None or not (vis & rets) or not all_root(vals):
+        return False
+    if is_leftmost:
+        vis, vals = row(False, False, True)
+        if vis is None or not (vis & rets) or not all_root(vals):
+            return False
+        vis, vals = row(False, False, False)
+    else:
+        if switches_on(root, fail_dead):
+            return False
+        vis, vals = row(False, False, None)
+    # keeps walking: no return, the fail link is read and the child lookup is retried
+    if vis is None or (vis & rets) or not (vis & fail_reads):
+        return False
+    return True
+
+
 def _trans_fn(ctx, v, roles, tb, allowed):
     lib = ctx.lib
     fv = FnView(lib, tb)
     root = fv.root
     is_leftmost = tb.path in v.trans_of_kind.get("leftmost", set())
     tag = "leftmost" if is_leftmost else "standard"
+    _sem = []
+
+    def sem():
+        # lazily: the decision table of the whole function (alternative proof of the return/exit clauses below)
+        if not _sem:
+            try:
+                _sem.append(bool(_trans_semantic(ctx, v, tb, fv, is_leftmost)))
+            except Exception:
+                _sem.append(False)
+        return _sem[0]
+    ctx.check(sem(), "TRANS-TABLE", tb, "decision-table:" + tag, tb.span,
+              "evaluated under assumptions on (child exists, state == ROOT%s) the transition must: return the child when it exists; "
+              "return ROOT at ROOT without a child%s; otherwise read fail(state) and retry — and return in no other case"
+              % (", fail == DEAD" if is_leftmost else "", "; return ROOT when the fail link is DEAD" if is_leftmost else ""))
     # returns: members of the return term
     ret = pnorm(root.ret())
     for m in members(ret):
@@ -531,8 +630,8 @@ def _trans_fn(ctx, v, roles, tb, allowed):
             ctx.check(c.body_path in v.child, "TRANS-RET", tb, "child-return:" + tag, tb.span,
                       "non-constant return must be the child function's payload; found %s" % show(m))
         else:
-            ctx.bad("TRANS-RET", tb, "other-return:" + tag, tb.span,
-                    "transition function returns something that is neither child nor ROOT: %s" % show(m))
+            ctx.check(sem(), "TRANS-RET", tb, "other-return:" + tag, tb.span,
+                      "transition function returns something that is neither child nor ROOT: %s" % show(m))
     # child call arguments: (self, state, label)
     childcalls = fv.calls(lambda c: c.body_path in v.child)
     if not childcalls:
@@ -604,7 +703,7 @@ def _trans_fn(ctx, v, roles, tb, allowed):
             # the true arm must reach return without another child call, the false arm must go on
             if b.in_cycle(bi) or True:
                 has_root_exit = True
-    ctx.check(has_root_exit, "TRANS-LOOP", tb, "root-exit:" + tag, tb.span,
+    ctx.check(has_root_exit or sem(), "TRANS-LOOP", tb, "root-exit:" + tag, tb.span,
               "the fail walk must stop with ROOT when the current state is ROOT (`state == ROOT` test on the loop state)")
     # leftmost: DEAD test on the fail value
     eq_dead = switches_on(root, lambda d: d[0] == "bin" and d[1] == "Eq" and (is_const(d[2], 1) or is_const(d[3], 1)))
@@ -618,7 +717,7 @@ def _trans_fn(ctx, v, roles, tb, allowed):
             reach_tt = b.reachable_from(tt)
             dead_on_fail = not (cc_blocks & reach_tt)
     if is_leftmost:
-        ctx.check(dead_on_fail, "TRANS-LM", tb, "dead-exit", tb.span,
+        ctx.check(dead_on_fail or sem(), "TRANS-LM", tb, "dead-exit", tb.span,
                   "the leftmost transition must return ROOT (leave the loop) when fail(state) == DEAD")
     else:
         ctx.check(not eq_dead, "TRANS-STD", tb, "no-dead-test", tb.span,
@@ -643,7 +742,7 @@ def _trans_fn(ctx, v, roles, tb, allowed):
     for bi_, si_ in root_assigns:
         # the assignment sits right behind its guard: guarded by an allowed edge and by no further non-allowed branch after it
         g_ = [e_ for e_ in allowed_edges if b.edge_guards(e_, bi_) and (e_[1] == bi_ or not _branch_between(b, e_[1], bi_))]
-        ctx.check(bool(g_), "TRANS-RET", tb, "root-return-reason:" + tag, tb.loc(bi_, si_),
+        ctx.check(bool(g_) or sem(), "TRANS-RET", tb, "root-return-reason:" + tag, tb.loc(bi_, si_),
                   "a transition may return ROOT only because the walk reached ROOT%s%s; this return has another (or an additional) condition"
                   % (", or the fail link is DEAD" if is_leftmost else "", ", or the character is unmapped" if v.tag == "cw" else ""))
     # cw: unmapped characters return ROOT before any table access
